@@ -50,6 +50,8 @@ func twoTagType(i int) twoTag {
 		{Name: "A", Type: reflect.TypeOf(""), Tag: mk(fmt.Sprintf("to=2~4|M%da", i), fmt.Sprintf("to=5~9|T%da", i))},
 		{Name: "B", Type: reflect.TypeOf(0), Tag: mk(fmt.Sprintf("ge=9|M%db", i), fmt.Sprintf("le=9|T%db", i))},
 		{Name: "C", Type: reflect.TypeOf(""), Tag: mk(fmt.Sprintf("required|M%dc", i), "")},
+		// quoted arguments: the splitter's slow path, twice on one field; "abc" satisfies both rules
+		{Name: "D", Type: reflect.TypeOf(""), Tag: mk(fmt.Sprintf("in=('a,b'/abc)|M%dd,suffix='bc'|M%de", i, i), fmt.Sprintf("in=('a,b'/abc)|T%dd,prefix='ab'|T%de", i, i))},
 	})
 	return twoTag{t, i}
 }
@@ -58,6 +60,7 @@ func (tt twoTag) value() interface{} {
 	v := reflect.New(tt.t).Elem()
 	v.Field(0).SetString("abc")
 	v.Field(1).SetInt(7)
+	v.Field(3).SetString("abc")
 	return v.Addr().Interface()
 }
 
